@@ -6,7 +6,8 @@ from .. import common, build, lean, check, script, wiregen
 
 MODULE = "Dbus.Props.C02"
 THEOREMS = ["marshal_roundtrip", "remarshal_identical", "byteswap_values", "byteswap_involutive", "byteswap_same_length",
-            "copy_differs_only_in_serial"]
+            "copy_differs_only_in_serial", "pushTop_keeps_valid", "build_step_keeps_valid", "build_keeps_valid", "built_message_roundtrips",
+            "serial_commutes_with_append"]
 
 
 def emit(rng, t, v, ops):
